@@ -70,29 +70,72 @@ theorem recover_unclassifiable {x : Pv} (h : x.unclassifiable = true) (o : Stack
     · left; simp [recoverUncatchable, asUncatchableException, he]
   · left; rfl
 
-/-- Every frame lets an unclassifiable panic value through unchanged (only the recorded vm position may
-change), and logs nothing: no catch block, no finally block runs. -/
+/-! ### RFW frames wrap an uncatchable error once more: `peel` strips those in-flight wrappers -/
+
+/-- Strip the `fmt.Errorf("rfw: %w", ·)` layers made in flight (they carry the reserved id 0). -/
+def GoErr.peel : GoErr → GoErr
+  | .wrap 0 i => peel i
+  | e => e
+
+def Pv.peel : Pv → Pv
+  | .goErr e => .goErr e.peel
+  | x => x
+
+theorem GoErr.peel_wrap0 (e : GoErr) : (GoErr.wrap 0 e).peel = e.peel := by
+  simp [GoErr.peel]
+
+/-- `x'` is `x`, possibly wrapped in flight if `x` is an uncatchable error (never if it is a foreign panic). -/
+def Unc (x x' : Pv) : Prop :=
+  x'.unclassifiable = true ∧ x'.peel = x.peel ∧ (asUncatchableException x = none → x' = x)
+
+theorem Unc.refl {x : Pv} (h : x.unclassifiable = true) : Unc x x := ⟨h, rfl, fun _ => rfl⟩
+
+theorem Unc.trans {x y z : Pv} (h1 : Unc x y) (h2 : Unc y z) : Unc x z := by
+  refine ⟨h2.1, by rw [h2.2.1, h1.2.1], ?_⟩
+  intro hn
+  have hy := h1.2.2 hn
+  subst hy
+  exact h2.2.2 hn
+
+/-- Every frame lets an unclassifiable panic value through (an RFW frame wraps an uncatchable error once more; a
+foreign panic is never touched), and logs nothing: no catch block, no finally block, no iterator return() runs. -/
 theorem applyFrame_unclassifiable (idx : Nat) (f : Frame) (cjs : Bool) {x : Pv}
     (h : x.unclassifiable = true) (o : StackTop) :
-    ∃ o', applyFrame idx f cjs (.panic x o) = (.panic x o', []) := by
+    ∃ x' o', applyFrame idx f cjs (.panic x o) = (.panic x' o', []) ∧ Unc x x' ∧ (f.rewraps = false → x' = x) := by
   have hv : vmTry (.panic x o) = .panic x o := by
     cases x <;> simp [Pv.unclassifiable] at h <;>
       simp [vmTry, handleThrow, handleThrowLoop, exceptionFromValue]
   have hj : jsCall (.panic x o) = .panic x o := by
     cases x <;> simp [Pv.unclassifiable] at h <;>
       simp [jsCall, handleThrow, handleThrowLoop, exceptionFromValue]
+  have hht : handleThrow o x [TF.marker] = .repanic x [TF.marker] := by
+    cases x <;> simp [Pv.unclassifiable] at h <;>
+      simp [handleThrow, handleThrowLoop, exceptionFromValue]
   have hi : invoke cjs (.panic x o) = .panic x o := by cases cjs <;> simp [invoke, hj]
   have hs : shim (.panic x o) = .panic x o := by simp [shim, jsFrame_unclassifiable _ _ h]
   have hs' : shim (.panic x .other) = .panic x .other := by simp [shim, jsFrame_unclassifiable _ _ h]
   rcases recover_unclassifiable h o with hn | ⟨e, rfl, he, hr⟩
-  · cases f <;>
+  · -- every frame passes x itself
+    refine ⟨x, ?_⟩
+    have hu := Unc.refl h
+    cases f <;>
       simp [applyFrame, jsFrame_unclassifiable _ _ h, callable_unclassifiable _ h, hn, panicErr, returnErr,
-        wrapJSFuncE, wrapJSFuncN, hs, hi, runProgram_eq_runWrapped, runWrapped, vmTry_jsCall, hv]
-  · cases f <;>
-      simp [applyFrame, jsFrame_unclassifiable _ _ h, callable_unclassifiable _ h, hr, panicErr, returnErr,
-        wrapJSFuncE, wrapJSFuncN, hs, hs', hi, runProgram_eq_runWrapped, runWrapped, vmTry_jsCall, hv,
-        ErrVal.toPv, wrapReflectErr, he]
-
+        wrapJSFuncE, wrapJSFuncN, hs, hi, runProgram_eq_runWrapped, runWrapped, vmTry_jsCall, hv, hj,
+        panicValue, returnWrapped, hht, hu, Frame.rewraps]
+  · by_cases hf : f = .rfw
+    · subst hf
+      refine ⟨.goErr (.wrap 0 e), .other, ?_, ⟨rfl, ?_, ?_⟩, ?_⟩
+      · simp [applyFrame, callable_unclassifiable _ h, hr, returnWrapped, wrapErr, wrapReflectErr,
+          GoErr.isUncatchable, he]
+      · simp [Pv.peel, GoErr.peel]
+      · intro hn; simp [asUncatchableException, he] at hn
+      · intro hrw; simp [Frame.rewraps] at hrw
+    · refine ⟨.goErr e, ?_⟩
+      have hu := Unc.refl h
+      cases f <;> simp at hf <;>
+        simp [applyFrame, jsFrame_unclassifiable _ _ h, callable_unclassifiable _ h, hr, panicErr, returnErr,
+          wrapJSFuncE, wrapJSFuncN, hs, hs', hi, runProgram_eq_runWrapped, runWrapped, vmTry_jsCall, hv, hj,
+          ErrVal.toPv, wrapReflectErr, he, panicValue, hht, hu, Frame.rewraps]
 
 /-! ## Segments -/
 
@@ -100,13 +143,14 @@ theorem applyFrame_normal (idx : Nat) (f : Frame) (cjs : Bool) :
     (applyFrame idx f cjs .normal).1 = .normal := by
   cases f <;> cases cjs <;>
     simp [applyFrame, jsFrame, callable, invoke, runWrapped, panicErr, returnErr, wrapReflectErr, wrapJSFuncE,
-      wrapJSFuncN, shim, runProgram, runProgram.handleThrowOpt]
+      wrapJSFuncN, shim, runProgram, runProgram.handleThrowOpt, panicValue, returnWrapped]
 
 theorem applyFrame_normal_log (idx : Nat) (f : Frame) (cjs : Bool) :
     ∀ l ∈ (applyFrame idx f cjs .normal).2, l = ⟨idx, .fin⟩ := by
   cases f <;> simp [applyFrame]
-  rename_i k
-  cases k <;> simp [jsFrame, JsKind.hasFinally]
+  · rename_i k
+    cases k <;> simp [jsFrame, JsKind.hasFinally]
+  · simp [jsFrame, JsKind.hasFinally]
 
 theorem evalSeg_normal (s : Seg) (ijs : Bool) : (evalSeg s .normal ijs).1 = .normal := by
   induction s with
@@ -128,14 +172,17 @@ theorem evalSeg_normal_log (s : Seg) (ijs : Bool) : ∀ l ∈ (evalSeg s .normal
       rw [applyFrame_normal_log _ _ _ l hl]
 
 theorem evalSeg_unclassifiable (s : Seg) (ijs : Bool) {x : Pv} (h : x.unclassifiable = true) (o : StackTop) :
-    ∃ o', evalSeg s (.panic x o) ijs = (.panic x o', []) := by
+    ∃ x' o', evalSeg s (.panic x o) ijs = (.panic x' o', []) ∧ Unc x x' ∧
+      ((∀ q ∈ s, q.2.rewraps = false) → x' = x) := by
   induction s with
-  | nil => exact ⟨o, rfl⟩
+  | nil => exact ⟨x, o, rfl, Unc.refl h, fun _ => rfl⟩
   | cons hd tl ih =>
     obtain ⟨i, f⟩ := hd
-    obtain ⟨o1, h1⟩ := ih
-    obtain ⟨o2, h2⟩ := applyFrame_unclassifiable i f (headIsJS tl ijs) h o1
-    exact ⟨o2, by simp [evalSeg, h1, h2]⟩
+    obtain ⟨x1, o1, h1, u1, r1⟩ := ih
+    obtain ⟨x2, o2, h2, u2, r2⟩ := applyFrame_unclassifiable i f (headIsJS tl ijs) u1.1 o1
+    refine ⟨x2, o2, by simp [evalSeg, h1, h2], u1.trans u2, ?_⟩
+    intro hq
+    rw [r2 (hq (i, f) (List.mem_cons_self ..)), r1 (fun q hq' => hq q (List.mem_cons_of_mem _ hq'))]
 
 /-- The log that the segments produce when every one of them completes normally. -/
 def normalLogs (segs : List Seg) : List LogE :=
@@ -163,7 +210,8 @@ theorem recover_toHost (x : Pv) (o : StackTop) : (recoverUncatchable x o).toHost
 escapes `leave()` unobserved. -/
 theorem runJobs_unclassifiable (p : Payload) {x : Pv} {o : StackTop} (hp : p.flow = .panic x o)
     (h : x.unclassifiable = true) :
-    ∀ ss : List Seg, ss ≠ [] → runJobs p ss = ⟨escapeHost x, [], normalLogs ss.dropLast⟩ := by
+    ∀ ss : List Seg, ss ≠ [] → ∃ x', Unc x x' ∧ ((∀ s ∈ ss, ∀ q ∈ s, q.2.rewraps = false) → x' = x) ∧
+      runJobs p ss = ⟨escapeHost x', [], normalLogs ss.dropLast⟩ := by
   intro ss
   induction ss with
   | nil => intro hne; exact absurd rfl hne
@@ -171,10 +219,12 @@ theorem runJobs_unclassifiable (p : Payload) {x : Pv} {o : StackTop} (hp : p.flo
     intro _
     cases tl with
     | nil =>
-      obtain ⟨o', he⟩ := evalSeg_unclassifiable s p.isJS h o
-      simp [runJobs, segInner, hp, he, vmTry_invoke_unclassifiable _ h, recover_toHost, normalLogs]
+      obtain ⟨x', o', he, hu, hr⟩ := evalSeg_unclassifiable s p.isJS h o
+      refine ⟨x', hu, fun hq => hr (hq s (List.mem_cons_self ..)), ?_⟩
+      simp [runJobs, segInner, hp, he, vmTry_invoke_unclassifiable _ hu.1, recover_toHost, normalLogs]
     | cons s2 tl2 =>
-      have ih' := ih (by simp)
+      obtain ⟨x', hu, hr, ih'⟩ := ih (by simp)
+      refine ⟨x', hu, fun hq => hr (fun s' hs' => hq s' (List.mem_cons_of_mem _ hs')), ?_⟩
       have hn := evalSeg_normal s true
       simp only [runJobs, segInner, List.isEmpty_cons, Bool.false_eq_true, ↓reduceIte, hn] at ih' ⊢
       have hv : vmTry (invoke (headIsJS s true) Flow.normal) = .ok := by
@@ -182,7 +232,6 @@ theorem runJobs_unclassifiable (p : Payload) {x : Pv} {o : StackTop} (hp : p.flo
       rw [hv]
       simp only [ih']
       simp [normalLogs, List.dropLast]
-
 
 theorem escapeHost_cases {x : Pv} (h : x.unclassifiable = true) :
     (escapeHost x = .panic x ∧ asUncatchableException x = none) ∨
@@ -204,35 +253,39 @@ theorem runProgram_normal : runProgram .normal = .ok := by
 /-- Master theorem for panic values that are not JS exceptions (uncatchable errors and foreign panics). -/
 theorem hostRun_unclassifiable (entry : Entry) (chain : List Frame) (p : Payload) {x : Pv} {o : StackTop}
     (hp : p.flow = .panic x o) (h : x.unclassifiable = true) :
-    (hostRun entry chain p).host = escapeHost x ∧ (hostRun entry chain p).rej = [] ∧
+    ∃ x', Unc x x' ∧ ((∀ s ∈ allSegs chain, ∀ q ∈ s, q.2.rewraps = false) → x' = x) ∧
+      (hostRun entry chain p).host = escapeHost x' ∧ (hostRun entry chain p).rej = [] ∧
       (hostRun entry chain p).log = normalLogs (allSegs chain).dropLast := by
   simp only [hostRun, allSegs]
   generalize splitSegs (indexed 0 chain) = sg
   obtain ⟨s0, ss⟩ := sg
   cases ss with
   | nil =>
-    obtain ⟨o', he⟩ := evalSeg_unclassifiable s0 p.isJS h o
-    have hc : ∀ b, callable b (.panic x o') = recoverUncatchable x o' := fun b => callable_unclassifiable b h o'
-    have hr : runWrapped (.panic x o') = recoverUncatchable x o' := by
+    obtain ⟨x', o', he, hu, hrw⟩ := evalSeg_unclassifiable s0 p.isJS h o
+    refine ⟨x', hu, fun hq => hrw (hq s0 (List.mem_cons_self ..)), ?_⟩
+    have h' := hu.1
+    have hc : ∀ b, callable b (.panic x' o') = recoverUncatchable x' o' := fun b => callable_unclassifiable b h' o'
+    have hr : runWrapped (.panic x' o') = recoverUncatchable x' o' := by
       have := hc false; simpa [callable, invoke] using this
-    have hf : ∀ b, firstCall entry b (.panic x o') = recoverUncatchable x o' := by
+    have hf : ∀ b, firstCall entry b (.panic x' o') = recoverUncatchable x' o' := by
       intro b; cases entry <;> simp [firstCall, hc, hr, runProgram_eq_runWrapped]
     simp only [hostRunSegs, segInner, List.isEmpty_nil, ↓reduceIte, hp, he, hf]
-    rcases escapeHost_cases h with ⟨h1, h2⟩ | ⟨e, rfl, he1, h1⟩
-    · have hq : recoverUncatchable x o' = .panic x o' := by simp [recoverUncatchable, h2]
+    rcases escapeHost_cases h' with ⟨h1, h2⟩ | ⟨e, rfl, he1, h1⟩
+    · have hq : recoverUncatchable x' o' = .panic x' o' := by simp [recoverUncatchable, h2]
       cases entry <;> simp [hq, h1, ranLeave, finish, wrapJSFuncE, CallRes.toHost, normalLogs]
     · have hq : recoverUncatchable (.goErr e) o' = .err (.go e) := by
         simp [recoverUncatchable, asUncatchableException, he1]
       cases entry <;> simp [hq, h1, ranLeave, finish, wrapJSFuncE, CallRes.toHost, normalLogs]
   | cons s1 tl =>
-    have hj := runJobs_unclassifiable p hp h (s1 :: tl) (by simp)
+    obtain ⟨x', hu, hrw, hj⟩ := runJobs_unclassifiable p hp h (s1 :: tl) (by simp)
+    refine ⟨x', hu, fun hq => hrw (fun s hs => hq s (List.mem_cons_of_mem _ hs)), ?_⟩
     have hn := evalSeg_normal s0 true
     have hf : ∀ b, firstCall entry b .normal = .ok := by
       intro b; cases entry <;> simp [firstCall, runProgram_normal, callable_normal]
     simp only [hostRunSegs, segInner, List.isEmpty_cons, Bool.false_eq_true, ↓reduceIte, hn, hf, ranLeave, hj]
     have hl : (s0 :: s1 :: tl).dropLast = s0 :: (s1 :: tl).dropLast := by simp [List.dropLast]
     rw [hl]
-    rcases escapeHost_cases h with ⟨h1, _⟩ | ⟨e, rfl, _, h1⟩
+    rcases escapeHost_cases hu.1 with ⟨h1, _⟩ | ⟨e, rfl, _, h1⟩
     · cases entry <;> simp [h1, mergeJobs, finish, wrapJSFuncE, CallRes.toHost, normalLogs]
     · cases entry <;> simp [h1, mergeJobs, finish, wrapJSFuncE, CallRes.toHost, normalLogs]
 
